@@ -11,6 +11,7 @@ Import ListNotations.
 From DD Require Import Hash.HashModel DiffIO.DiffIOModel.
 From DD Require Import Base.Value Diff.Tree Diff.DiffModel Dist.DistModel Dist.DistProofs Dist.DistDiffModel Dist.DistDiffProofs.
 From DD Require Import Dist.DistIOModel Dist.DistIOLength Dist.DistIOProofs Dist.DistIOMutual Dist.DistFracFloat.
+From DD Require Import Dist.DistSubProofs Dist.DistScalarProofs Dist.DistIOShape.
 
 (** ** number / date / time distance: range *)
 
@@ -310,3 +311,122 @@ Theorem C19_fraction_float_positive : forall n m : nat, 0 < n ->
   sf_is_zero (frac_float n m) = false.
 Proof. exact frac_float_positive. Qed.
 Print Assumptions C19_fraction_float_positive.
+
+(** ** second wave: the guard on the pairing itself, the input-level zero guard, numpy variant, more witnesses *)
+
+(* [pairs_unrep]: at every list / tuple reachable in t1 every pair the oracle lists points at a removed item whose
+   hash occurs once there - what the replicated diff of K28 violates, and nothing more: repeated items that are
+   reported as removed or as repetition changes are allowed ([uniq_items] is not needed); evaluated on the recorded
+   pairings of every run ([pairs_unrep_obs]) *)
+Theorem C19_io_reports_disjoint_parts_pairs :
+  forall H udiff skip excl c rep pairs,
+    ignore_private c = true ->
+    forall t1 t2 p1 p2, wf t1 = true -> wf t2 = true -> pairs_unrep H c rep pairs t1 p1 ->
+      W1 (fst (diff_io H udiff skip excl c rep pairs t1 t2 p1 p2)) <= count t1 /\
+      W2 (fst (diff_io H udiff skip excl c rep pairs t1 t2 p1 p2)) <= count t2.
+Proof. exact io_weights_pairs. Qed.
+Print Assumptions C19_io_reports_disjoint_parts_pairs.
+
+Theorem C19_deep_distance_range_ignore_order_pairs :
+  forall H udiff skip excl c rep pairs incl cutoff t1 t2 n m,
+    ignore_private c = true -> wf t1 = true -> wf t2 = true ->
+    pairs_unrep H c rep pairs t1 [] ->
+    tcs_ok incl (fst (diff_io H udiff skip excl c rep pairs t1 t2 [] [])) = true ->
+    deep_distance_of_diff_io H udiff skip excl c rep pairs incl cutoff t1 t2 = RFrac n m ->
+    0 < n /\ n <= m.
+Proof. exact deep_distance_io_range_pairs. Qed.
+Print Assumptions C19_deep_distance_range_ignore_order_pairs.
+
+(* the difference of two different finite floats is a non-zero number (finite or an overflow): gradual underflow,
+   from the definitions of SFsub / binary_normalize / binary_round and the uniqueness of canonical representations *)
+Theorem C19_float_difference_nonzero : forall x y : float,
+  sf_fin0 (FloatOps.Prim2SF x) = true -> sf_fin0 (FloatOps.Prim2SF y) = true -> (x =? y)%float = false ->
+  fin_or_inf (FloatOps.Prim2SF (x - y)%float).
+Proof. exact float_sub_nonzero. Qed.
+Print Assumptions C19_float_difference_nonzero.
+
+(* 0 only for equal numbers, first clause of the guard on the INPUTS: two different finite floats (K14b is exactly
+   x =? y); what stays on computed values: no overflow of the difference / divisor, no underflow of the quotient *)
+Theorem C19_numbers_zero_partial_inputs : forall a b mx x y v,
+  pynum_eq a b = false ->
+  to_float a = Some x -> to_float b = Some y ->
+  zero_guard_in x y mx = true ->
+  numbers_distance a b mx = DVal v -> (v =? 0)%float = false.
+Proof. exact numbers_zero_guarded_inputs. Qed.
+Print Assumptions C19_numbers_zero_partial_inputs.
+
+(* the numpy variant used when pairing homogeneous number sequences: nan or in [0, max_] *)
+Theorem C19_numbers_np_range : forall x y mx, (0 <=? mx)%float = true ->
+  is_nan (numbers_distance_np x y mx) = true \/
+  ((0 <=? numbers_distance_np x y mx)%float = true /\ (numbers_distance_np x y mx <=? mx)%float = true).
+Proof. exact numbers_np_range. Qed.
+Print Assumptions C19_numbers_np_range.
+
+(* K22: 0 for different numbers (5 vs 0, max_ = 1: the scalar function returns max_), and nan is really produced *)
+Theorem C19_numbers_np_zero_refuted :
+  exists x y mx, (x =? y)%float = false /\ (0 <? mx)%float = true /\ numbers_distance_np x y mx = 0%float /\
+                 numbers_distance (PFloat x) (PFloat y) mx = DVal mx.
+Proof. exact numbers_np_zero_refuted. Qed.
+Print Assumptions C19_numbers_np_zero_refuted.
+
+Theorem C19_numbers_np_nan_refuted :
+  exists x y mx, (0 <? mx)%float = true /\ is_nan x = false /\ is_nan y = false /\ is_nan (numbers_distance_np x y mx) = true.
+Proof. exact numbers_np_nan_refuted. Qed.
+Print Assumptions C19_numbers_np_nan_refuted.
+
+(* K20 / K14b in the date-time dispatch *)
+Theorem C19_scalars_zero_refuted_date_vs_datetime :
+  exists s1 s2 mx, (0 <? mx)%float = true /\
+    (match s1, s2 with SDateTime _ _, SDate _ => True | _, _ => False end) /\
+    numeric_types_distance s1 s2 mx = Some DInt0.
+Proof. exact scalars_zero_refuted_date_vs_datetime. Qed.
+Print Assumptions C19_scalars_zero_refuted_date_vs_datetime.
+
+Theorem C19_scalars_zero_refuted_datetime_collapse :
+  exists o us1 us2 mx, us1 <> us2 /\ (0 <? mx)%float = true /\
+    numeric_types_distance (SDateTime o (TsAware us1)) (SDateTime o (TsAware us2)) mx = Some DInt0.
+Proof. exact scalars_zero_refuted_datetime_collapse. Qed.
+Print Assumptions C19_scalars_zero_refuted_datetime_collapse.
+
+(* K23 / K24 in the composed ordered model: non-empty diff, distance 0 *)
+Theorem C19_deep_distance_positive_refuted_root_numbers :
+  fst (diff no_hash no_udiff (fun _ _ _ => []) nf nf ex_cfg (Iz 1) (VAtom (AHalf 2)) [] []) <> [] /\
+  deep_distance_of_diff no_hash no_udiff (fun _ _ _ => []) nf nf ex_cfg all_incl 0x1.3333333333333p-2%float (Iz 1) (VAtom (AHalf 2)) = RDist DInt0.
+Proof. exact deep_distance_positive_refuted_root_numbers. Qed.
+Print Assumptions C19_deep_distance_positive_refuted_root_numbers.
+
+Theorem C19_deep_distance_positive_refuted_opcodes :
+  ops_tiling k24_ops /\
+  List.length (fst (diff no_hash no_udiff k24_ops nf nf ex_cfg k24_t1 k24_t2 [] [])) = 2 /\
+  deep_distance_of_diff no_hash no_udiff k24_ops nf nf ex_cfg all_incl 0x1.3333333333333p-2%float k24_t1 k24_t2 = RInt0.
+Proof. exact deep_distance_positive_refuted_opcodes. Qed.
+Print Assumptions C19_deep_distance_positive_refuted_opcodes.
+
+Theorem C19_pair_distance_range_rep_pairs :
+  forall H udiff skip excl c pairs incl cutoff x y n m,
+    ignore_private c = true -> wf x = true -> wf y = true ->
+    pairs_unrep H c true pairs x [] ->
+    tcs_ok incl (fst (diff_io H udiff skip excl c true pairs x y [] [])) = true ->
+    pair_distance H udiff skip excl c true pairs incl cutoff x y = RFrac n m ->
+    0 < n /\ n <= m.
+Proof. exact pair_distance_rep_range_pairs. Qed.
+Print Assumptions C19_pair_distance_range_rep_pairs.
+
+(* it is implied by the two report_repetition disjuncts of io_guard *)
+Theorem C19_io_guard_implies_pairs_unrep : forall H c rep pairs t1,
+  ((forall p, pairs p = []) \/ uniq_items H c rep t1 = true) -> pairs_unrep H c rep pairs t1 [].
+Proof. exact io_guard_pairs_unrep. Qed.
+Print Assumptions C19_io_guard_implies_pairs_unrep.
+
+(* one conjunct of mutual_ok is proved of diff_io itself, for every oracle: removed levels have no t2, added
+   levels have no t1 and a t2 - what is left to observe are the three distinctness conditions *)
+Theorem C19_diff_io_levels_shape_ok : forall H udiff skip excl c rep pairs x y p1 p2,
+  forallb shape_ok (fst (diff_io H udiff skip excl c rep pairs x y p1 p2)) = true.
+Proof. exact diff_io_levels_shape_ok. Qed.
+Print Assumptions C19_diff_io_levels_shape_ok.
+
+Theorem C19_mutual_ok_reduces : forall H udiff skip excl c rep pairs x y p1 p2,
+  mutual_ok (fst (diff_io H udiff skip excl c rep pairs x y p1 p2)) =
+  mutual_paths_ok (fst (diff_io H udiff skip excl c rep pairs x y p1 p2)).
+Proof. exact diff_io_mutual_ok. Qed.
+Print Assumptions C19_mutual_ok_reduces.
